@@ -97,6 +97,8 @@ def run(repo, rep):
     rule_cpu_pass_move(repo, rep)
     rep.clause("C13-aj", "chain merges (pre -> mid -> post into mid) go ahead only if each tensor in between has exactly one consumer")
     rule_chain_merge_consumers(repo, rep)
+    rep.clause("C13-an", "operands that get_split_inputs_axis asserts constant are required constant by a registered constraint of the operator")
+    rule_asserted_constants(repo, rep)
     rep.clause("C13-am", "sizes of -1 ('the rest') are resolved in every branch of get_split_inputs_axis that turns sizes into offsets")
     rule_size_minus_one(repo, rep)
     rep.clause("C13-al", "optional string members of option tables are written only when present (None excluded before CreateString)")
@@ -2273,3 +2275,56 @@ def rule_size_minus_one(repo, rep):
                   f"`{str(norm(uses[0]))[:70]}` uses the size as it is: SLICE with begin 2 and size -1 gets end offset 1 < begin: AssertionError in Box.__init__ (start <= end)")
     if n < 1:
         raise AnalysisError("get_split_inputs_axis: no branch does arithmetic on a size operand")
+
+
+def rule_asserted_constants(repo, rep):
+    """(an) Operation.get_split_inputs_axis asserts that the size / axis operands it reads are constants
+    (`assert len(t.ops) == 1 and t.ops[0].type == Op.Const`). It runs on operators that passed both checkers, so for every such
+    operand a registered constraint of that operator type must reject a non-constant one (`<operand>.values is None`); otherwise a valid
+    model with a computed size_splits tensor aborts in the assert instead of staying on the CPU."""
+    from .c16 import registrations
+
+    opm = repo.mod("operation")
+    f = opm.func("Operation.get_split_inputs_axis")
+    so, sem = repo.mod("tflite_supported_operators"), repo.mod("tflite_model_semantic")
+    reg = {}
+    for m_, cls in ((so, "TFLiteSupportedOperators"), (sem, "TFLiteSemantic")):
+        for op_t, names in registrations(repo, m_, cls)[1].items():
+            for nm in names:
+                reg.setdefault(str(op_t).split(".")[-1], []).append((m_, cls, nm))
+    n = 0
+    for br in ast.walk(f):
+        if not (isinstance(br, ast.If) and "self.type ==" in str(norm(br.test))):
+            continue
+        op_t = str(norm(br.test)).split("Op.")[-1].strip(") ")
+        idx = {}
+        for a in br.body:
+            if isinstance(a, ast.Assign) and len(a.targets) == 1 and isinstance(a.targets[0], ast.Name) and str(norm(a.value)).startswith("self.inputs["):
+                idx[a.targets[0].id] = int(str(norm(a.value))[len("self.inputs["):-1])
+        for a in br.body:
+            if isinstance(a, ast.Assert) and ".ops[0].type == Op.Const" in str(norm(a.test)):
+                nm = str(norm(a.test)).split(".ops[0].type")[0].split()[-1].split("(")[-1]
+                if nm not in idx:
+                    continue
+                i = idx[nm]
+                n += 1
+                found = False
+                for m_, cls, cn in reg.get(op_t, []):
+                    g = m_.functions.get(f"{cls}.{cn}")
+                    if g is None:
+                        continue
+                    names_i = {f"op.inputs[{i}]"}
+                    for b in ast.walk(g):
+                        if isinstance(b, ast.Assign) and len(b.targets) == 1:
+                            bv = b.value.body if isinstance(b.value, ast.IfExp) else b.value
+                            if isinstance(b.targets[0], ast.Name) and str(norm(bv)) == f"op.inputs[{i}]":
+                                names_i.add(b.targets[0].id)
+                            if isinstance(b.targets[0], ast.Tuple) and str(norm(b.value)) == "op.inputs" and len(b.targets[0].elts) > i and isinstance(b.targets[0].elts[i], ast.Name):
+                                names_i.add(b.targets[0].elts[i].id)
+                    txt = " ".join(str(norm(c)) for c in ast.walk(g) if isinstance(c, ast.Compare))
+                    if any(f"{x}.values is None" in txt for x in names_i):
+                        found = True
+                rep.check(found, "C13-an", "ethosu/vela/operation.py:Operation.get_split_inputs_axis", f"{op_t}: operand {i} (`{nm}`), asserted constant here, is required constant by a registered constraint",
+                          f"no constraint of {op_t} tests `op.inputs[{i}].values is None`: {op_t} with a computed `{nm}` passes both checkers and aborts in `{str(norm(a))[:70]}`")
+    if n < 2:
+        raise AnalysisError(f"get_split_inputs_axis: {n} constness assertions on named operands")
